@@ -85,6 +85,11 @@ Proof. exact model_is_generated_surfaces. Qed.
 Print Assumptions model_uses_generated_surface_formulas.
 
 (* ====== 2. detector point = reference point + rotated surface point; rigid motion ====== *)
+(* All statements of sections 2-4 are PER POINT: one angle (triple) and one detector parameter.  The vectorised entry
+   points are documented to return broadcast(mparam, dparam).shape + (ndim,), squeezed only when every parameter is a
+   scalar, with entry [i] equal to the scalar call at the i-th broadcast parameters; that lifting is NumPy shape
+   mechanics and is validated by the probe family shape-<class>-<method> (harness/c19.py:_probe_shapes: argument kinds
+   {python scalar, 0-d, (1,), (n,), (n,1), (1,n), tuples incl. mixed scalar/array} x the same, shape AND values). *)
 (* By definition of the model (Geometry.det_point_position) the detector point IS
    det_refpoint + R surface(u).  The theorems below say more: the whole detector at angle a is the
    rotation about the translation point of an angle-independent configuration, and distances on
@@ -442,6 +447,17 @@ Theorem constructed_geometries_wellformed :
 Proof. exact constructed_wf_l. Qed.
 Print Assumptions constructed_geometries_wellformed.
 
+(* the same for the alignment of curved detectors that /repo uses since 5d26109 ([true]): detector axes given
+   explicitly and perpendicular, or defaulted *)
+Theorem constructed_conebeam_wellformed_current : forall rs rd curv pitch off axis s2d axes tr (g : cone),
+  match axes with Some (a0, a1) => dot3 a0 a1 = 0 | None => True end ->
+  mk_cone sqrt true rs rd curv pitch off axis s2d axes tr = Some g ->
+  dot3 (c_axis g) (c_axis g) = 1 /\ dot3 (c_s2d g) (c_s2d g) = 1 /\ wf_det3' (c_det g) /\
+  0 <= c_rs g /\ 0 <= c_rd g /\ ~ (c_rs g = 0 /\ c_rd g = 0) /\
+  c_tr g = tr /\ c_pitch g = pitch /\ c_off g = off.
+Proof. exact mk_cone_wf_current. Qed.
+Print Assumptions constructed_conebeam_wellformed_current.
+
 (* ============ 10. building a geometry from a transformation matrix (frommatrix) ============ *)
 (* For a rotation matrix m and a translation t, whenever frommatrix succeeds, every absolute vector of
    the new geometry is  t + m (vector of the class-default geometry)  -- for all angles, shifts and
@@ -496,14 +512,13 @@ Theorem parallel3d_euler_frommatrix : forall m (tr : R * R * R) (g : par3d) (ph 
 Proof. exact par3d_frommatrix_spec. Qed.
 Print Assumptions parallel3d_euler_frommatrix.
 
-(* ---- curved detectors with non-default axes.  Full statement "a cone beam geometry with a cylindrical or
-   spherical detector built by frommatrix (or directly on rotated axes) is the rigid-motion image of the default
-   one, and surface_deriv(0, 0) = radius * axes" is FALSE for the code as it is: Cylindrical/SphericalDetector
-   align themselves by two successive rotation_matrix_from_to calls, and when the first rotation takes e_z to
-   -axes[1] the second one is a half turn about an ARBITRARY perpendicular axis (recorded finding
-   C19/curved-detector-antiparallel-axes; refuted by execution in [curved_alignment_refuted] below).
-   [mk_curved false] is the code as it is, [mk_curved true] the repaired alignment (matrix with columns
-   -(a0 x a1), -a0, a1); the harness measures which one /repo shows.  For the repaired alignment: *)
+(* ---- curved detectors with non-default axes.  Until fix 5d26109 Cylindrical/SphericalDetector aligned themselves by
+   two successive rotation_matrix_from_to calls; when the first rotation took e_z to -axes[1] the second one was a half
+   turn about an ARBITRARY perpendicular axis and axes[0] was lost (finding C19/curved-detector-antiparallel-axes, now
+   fixed; the old alignment [mk_curved false] is still refuted by execution in [curved_alignment_refuted] below).
+   Since the fix the second rotation is about axes[0]; for perpendicular axes that is the rotation with columns
+   -(a0 x a1), -a0, a1, which is what [mk_curved true] uses (closed form of the repaired code, compared with it by the
+   correspondence on every curved case; the harness measures which alignment /repo shows).  For the current alignment: *)
 Theorem curved_detector_deriv_at_zero_repaired : forall (sph : bool) (a0 a1 : R * R * R) (r u v : R) (d : det3d),
   dot3 a0 a1 = 0 -> mk_curved sqrt true sph a0 a1 r = Some d ->
   deriv3 d (u, v, (1, 0), (1, 0)) =
@@ -564,8 +579,8 @@ Example default_geometries_3d_are_constructed :
                            [0; 0; 1; 0; 1; 0; 1; 0; 0; 0; 0; 1; 2; 1]
    | None => false end) = true.
 Proof. split; vm_compute; reflexivity. Qed.
-(* the code as it is ([false]): for axes ((0,1,0),(0,0,1)) the alignment matrix sends -e_y to -axes[0], and
-   frommatrix with the quarter turn about z is not the rotated default geometry; the repaired alignment ([true])
+(* the alignment before fix 5d26109 ([false]): for axes ((0,1,0),(0,0,1)) the alignment matrix sends -e_y to -axes[0], and
+   frommatrix with the quarter turn about z is not the rotated default geometry; the current alignment ([true])
    is right on the same inputs (executed) *)
 Example curved_alignment_refuted :
   let z90 : (Q * Q * Q) * (Q * Q * Q) * (Q * Q * Q) := ((0, -1, 0), (1, 0, 0), (0, 0, 1))%Q in
